@@ -99,6 +99,7 @@ func (p ParallelBatchParser[T]) processAsync(batches []string, work func(int, st
 		go func(batchIndex int, batchText string) {
 			defer wg.Done()
 			result := work(batchIndex, batchText)
+			verifSchedulePoint(batchIndex, len(batches))
 			resultChannel <- result
 		}(i, b)
 	}
